@@ -23,6 +23,11 @@ func init() {
 		t[0].HL, t[2].HL, t[4].HL = 1, 1, 1
 		return t
 	}
+	// a dirty destination for the hard-link tree: the link source exists with other bytes (it is replaced), a later
+	// member exists as a file of its own, one member is missing
+	extraTrees["c19hl-dirty"] = func() fsmodel.Tree {
+		return fsmodel.Tree{f("a", 9, 6, t1+50), d("d", t1+1), f("q", 2, 40000, t1+2), f("z", 8, 6, t1), f("stale", 7, 3, t1)}
+	}
 	// selected files below unselected directories, several such directories in a row
 	extraTrees["c19nest"] = func() fsmodel.Tree {
 		return fsmodel.Tree{f("0first", 3, 4, t1), d("a", t1+1), f("a/f", 4, 5, t1+2), d("b", t1+3), d("b/c", t1+4), f("b/c/g", 5, 6, t1+5), d("e", t1+6), f("e/h", 6, 7, t1+7)}
